@@ -226,3 +226,41 @@ func obsReader() []Obs {
 		}},
 	}
 }
+
+// obsExtra: observations that exist only on coregex are compared against the regexp API they must equal.
+func obsExtra() []Obs {
+	var out []Obs
+	out = append(out, Obs{"AllIndex", func(re StdAPI, h []byte) string {
+		if cx, ok := re.(*coregex.Regex); ok {
+			var it [][]int
+			for m := range cx.AllIndex(h) {
+				it = append(it, []int{m[0], m[1]})
+			}
+			return fmtIntss(it)
+		}
+		return fmtIntss(re.FindAllIndex(h, -1))
+	}})
+	for _, n := range []int{-1, 1, 2, 3} {
+		n := n
+		out = append(out, Obs{"Count/" + nsOf(n), func(re StdAPI, h []byte) string {
+			if cx, ok := re.(*coregex.Regex); ok {
+				return fmt.Sprint(cx.Count(h, n))
+			}
+			return fmt.Sprint(len(re.FindAllIndex(h, n)))
+		}}, Obs{"AppendAllIndex/" + nsOf(n), func(re StdAPI, h []byte) string {
+			if cx, ok := re.(*coregex.Regex); ok {
+				a := cx.AppendAllIndex([][2]int{{7, 9}}, h, n)
+				if len(a) == 0 || a[0] != [2]int{7, 9} {
+					return "lost-dst"
+				}
+				var it [][]int
+				for _, m := range a[1:] {
+					it = append(it, []int{m[0], m[1]})
+				}
+				return fmtIntss(it)
+			}
+			return fmtIntss(re.FindAllIndex(h, n))
+		}})
+	}
+	return out
+}
